@@ -4,6 +4,7 @@ Histories are not enumerated blindly; the shared state a call can meet is made s
 (the allocator pattern), plus short API-level histories with symbolic date digits around the mechanisms that carry
 state between calls (dictionary caches, the shared DATE_ORDER field, the settings registry)."""
 import datetime as _dt
+import os
 
 import z3
 
@@ -32,6 +33,8 @@ ASSUMPTIONS = [
     "settings; a parser with another RELATIVE_BASE / permuted DEFAULT_LANGUAGES / equal effective values / a value of "
     "another type with the same text; a laxer call with the same format; SKIP_TOKENS with the same concatenation; 1100 "
     "distinct configurations), then the first object is used with symbolic digits, reference times and clock",
+    "hash seeds: in the hash-seed tasks the iteration order of every set of strings is a decision of the path (insertion "
+    "order or its reverse - two of the n! orders); witnesses are replayed in fresh processes under PYTHONHASHSEED 0..11",
     "API histories: two/three calls with symbolic digits around failing parses, differing CACHE_SIZE_LIMIT and "
     "PREFER_LOCALE_DATE_ORDER; whole-API histories beyond these shapes, hash-seed independence and 'caller's dict/list "
     "unmodified' are outside",
@@ -352,6 +355,79 @@ def h_older(kind):
     return fn
 
 
+REPEAT = ["search-twice-normalize-off", "parse-after-foreign-parse"]
+_ES_TEXT = "El miércoles 12 de marzo de 2014 llegó"
+
+
+def _fresh_loader(n):
+    """what a fresh process starts with: no language or locale loaded yet"""
+    n.LO.LocaleDataLoader._loaded_languages.clear()
+    n.LO.LocaleDataLoader._loaded_locales.clear()
+    n.D.DateDataParser.locale_loader = None
+    # the search module keeps its own map of Locale objects (built at import): drop what they have cached since
+    for loc in n.SE._search_with_detection.available_language_map.values():
+        for k in [k for k in vars(loc) if k not in ("shortname", "info")]:
+            delattr(loc, k)
+
+
+def _repeat_seq(kind, DDP, search, parse, S):
+    """returns (result of the call under test, result the same call must equal)"""
+    if kind == "search-twice-normalize-off":
+        first = search(_ES_TEXT, settings={"NORMALIZE": False})
+        again = search(_ES_TEXT, settings={"NORMALIZE": False})
+        return again, first
+    if kind == "parse-after-foreign-parse":
+        s = S([("d", 2), "/03/2015 10:20:30 ET"])
+        parse("14 mars 2015")                     # an earlier call, in another language, through the module-level parser
+        return parse(s), DDP().get_date_data(s).date_obj
+    raise ValueError(kind)
+
+
+def _same(a, b):
+    if a is None or b is None:
+        return a is None and b is None
+    if isinstance(a, (list, tuple)):
+        return isinstance(b, (list, tuple)) and len(a) == len(b) and all(_same(x, y) for x, y in zip(a, b))
+    if isinstance(a, dates.SDateTime) or isinstance(b, dates.SDateTime):
+        if (a.tzinfo is None) != (b.tzinfo is None):
+            return False
+        if a.tzinfo is not None and a.utcoffset() != b.utcoffset():
+            return False
+        return bool(core.mkbool(z3.And(*[_zi(getattr(a, f)) == _zi(getattr(b, f)) for f in dates._FIELDS])))
+    return bool(a == b)
+
+
+def h_repeat(kind):
+    """the same call made twice / after an unrelated call returns what it returns first / alone (loader state as in a fresh
+    process at the start of every path)"""
+    def fn():
+        n = C.ns()
+        _fresh_loader(n)
+        v = {"d": C.field("d", 13, 28)} if kind == "parse-after-foreign-parse" else {}
+        got, want = _repeat_seq(kind, n.D.DateDataParser, n.SE.search_dates, n.dateparser.parse, lambda parts: tmpl(parts, v))
+        return C.outcome(_same(got, want), dict(v), "repeat")
+    return fn
+
+
+def h_hashseed(langs):
+    """'identical ... for all interpreter hash seeds': the iteration order of every set of strings is a decision of the
+    path (symx.strings.SET_ORDER_FORK); the languages are tried in the GIVEN order, so the first one's reading wins"""
+    def fn():
+        from symx import strings
+        strings.SET_ORDER_FORK[0] = True
+        n = C.ns()
+        v = {"Y": C.field("Y", 1000, 9999), "a": C.field("a", 1, 12), "b": C.field("b", 1, 12)}
+        s = tmpl([("a", 2), "/", ("b", 2), "/", ("Y", 4)], v)
+        dd = n.D.DateDataParser(languages=list(langs), use_given_order=True).get_date_data(s)
+        do = dd.date_obj
+        if do is None:
+            return C.outcome(False, dict(v), "none")
+        first = langs[0]
+        ok = C.dt_is(do, v["Y"], v["b"], v["a"]) if first == "fr" else C.dt_is(do, v["Y"], v["a"], v["b"])
+        return C.outcome(ok, dict(v), "orders:%s" % ",".join(core.CUR.notes.get("set_orders", [])))
+    return fn
+
+
 HISTORIES = ["failed-parse-then-default-order", "failed-parse-then-tl", "cache-limit-sequence", "custom-settings-then-default"]
 
 
@@ -370,6 +446,10 @@ def tasks(tier, seed):
         add("history:%s" % h, "h_history", {"shape": h}, 300)
     for k in OLDER:
         add("live-object:%s" % k, "h_older", {"kind": k}, 300)
+    for k in REPEAT:
+        add("repeat:%s" % k, "h_repeat", {"kind": k}, 200)
+    for langs in (["fr", "en"], ["en", "fr"]):
+        add("hash-seed:given-order:%s" % "+".join(langs), "h_hashseed", {"langs": langs}, 200)
     return out
 
 
@@ -478,6 +558,38 @@ def native_check(spec):
             bad.append("_mod_settings=%r" % (s3._mod_settings,))
         return {"violates": bool(bad), "detail": "settings %r, then %r, then %r again (mutation %d): wrong fields %r" % (
             d1, d2, d1, w["mutate"], bad)}
+    if fn == "h_hashseed":
+        import subprocess
+        from symx import runner
+        s_ = "%02d/%02d/%04d" % (w["a"], w["b"], w["Y"])
+        exp = (w["Y"], w["b"], w["a"]) if a["langs"][0] == "fr" else (w["Y"], w["a"], w["b"])
+        code = ("import sys; sys.path.insert(0, %r); from dateparser.date import DateDataParser as P; "
+                "d = P(languages=%r, use_given_order=True).get_date_data(%r).date_obj; print((d.year, d.month, d.day) if d else None)"
+                % (runner.REPO, a["langs"], s_))
+        seen = {}
+        for hs in range(12):
+            r = subprocess.run([runner.PY, "-c", code], capture_output=True, text=True, timeout=120,
+                               env=dict(os.environ, PYTHONHASHSEED=str(hs)))
+            seen[hs] = r.stdout.strip().splitlines()[-1] if r.stdout.strip() else r.stderr.strip()[-100:]
+        bad = {hs: v_ for hs, v_ in seen.items() if v_ != repr(exp)}
+        return {"violates": bool(bad), "detail": "DateDataParser(languages=%r, use_given_order=True).get_date_data(%r) under "
+                "PYTHONHASHSEED 0..11: expected %r; differing: %r" % (a["langs"], s_, exp, bad)}
+    if fn == "h_repeat":
+        import subprocess
+        from symx import runner
+        kind = a["kind"]
+        code = ("import sys, datetime; sys.path.insert(0, %r); sys.path.insert(0, %r); import dateparser; "
+                "from dateparser.date import DateDataParser; from dateparser.search import search_dates; "
+                "from checks.c03 import _repeat_seq; from symx.tmpl import render; w = %r; "
+                "got, want = _repeat_seq(%r, DateDataParser, search_dates, dateparser.parse, lambda parts: render(parts, w)); "
+                "print(repr(got)); print(repr(want)); print('SAME' if got == want else 'DIFFERENT')"
+                % (runner.REPO, runner.VERIF, w, kind))
+        r = subprocess.run([os.path.join(runner.VERIF, ".venv", "bin", "python"), "-c", code], capture_output=True, text=True, timeout=300)
+        lines = r.stdout.strip().splitlines()
+        if r.returncode != 0 or len(lines) < 3:
+            return {"violates": True, "detail": "repeat history %s crashed: %s" % (kind, r.stderr.strip()[-300:])}
+        return {"violates": lines[-1] != "SAME", "detail": "repeat history %s (see checks/c03.py:_repeat_seq, witness %r) in a fresh "
+                "process: got %s; must equal %s" % (kind, w, lines[-3][:200], lines[-2][:200])}
     from dateparser.date import DateDataParser
     if fn == "h_older":
         from dateparser.search import search_dates
